@@ -7,7 +7,7 @@ P=${1:-4}
 ls seeded | xargs -P $P -I{} bash -c '
   id={}; prop=${id%%-*}
   case $prop in
-    C01) c=C01,C04;; C02) c=C02,C16;; C03) c=C03,C04;; C04) c=C04,C03;; C07) c=C07,C11,C05;; C08) c=C08,C09;; C09) c=C09,C08;;
+    C01) c=C01,C04;; C02) c=C02,C16;; C03) c=C03,C04;; C04) c=C04,C03;; C07) c=C07,C11,C05;; C05) c=C05,C07,C11;; C08) c=C08,C09;; C09) c=C09,C08;;
     C11) c=C11,C07;; C13) c=C13,C14;; C14) c=C14,C13;; C16) c=C16,C02;; C17) c=C17,C16;; C06) c=C06,C07;; C12) c=C12,C10;; C20) c=C20,C14;; *) c=$prop;;
   esac
   out=$(python3 tools/keep_mutant.py $id $prop seeded/$id --checks $c 2>&1)
